@@ -4,17 +4,18 @@
 PROP=$1; D=$(realpath "$2"); shift 2; TESTS="$@"
 WT=$(mktemp -d /tmp/wt-seed-XXXXXX)
 git -C /repo worktree add --detach "$WT" HEAD >/dev/null 2>&1
-trap 'git -C /repo worktree remove --force "$WT" >/dev/null 2>&1; rm -rf "$WT"' EXIT
+trap 'git -C /repo worktree remove --force "$WT" >/dev/null 2>&1; rm -rf "$WT" "$WT-out"' EXIT
 DEMO=$(ls $D/demo.py $D/test_demo.py 2>/dev/null | head -1)
 PYI=/venv/bin/python; grep -q '"interpreter": *"python3-vt"' "$D/meta.json" 2>/dev/null && PYI=python3-vt
-run_demo() { (cd "$WT" && sed -e "s#/tmp/seed3-$PROP#$WT#g" -e "s#/tmp/seed2-$PROP#$WT#g" -e "s#/tmp/seed-$PROP#$WT#g" "$DEMO" > "$WT/_demo.py" && PYTHONPATH="$WT" timeout 300 $PYI "$WT/_demo.py" >/dev/null 2>&1); echo $?; }
+OUTD="$WT-out"; mkdir -p "$OUTD"
+run_demo() { (cd "$WT" && sed -e "s#/tmp/seed4-$PROP-out#$OUTD#g" -e "s#/tmp/seed4-$PROP#$WT#g" -e "s#/tmp/seed3-$PROP#$WT#g" -e "s#/tmp/seed2-$PROP#$WT#g" -e "s#/tmp/seed-$PROP#$WT#g" "$DEMO" > "$WT/_demo.py" && PYTHONPATH="$WT" timeout 300 $PYI "$WT/_demo.py" >/dev/null 2>&1); echo $?; }
 C=$(run_demo)
 if ! git -C "$WT" apply "$D/patch.diff" 2>/dev/null; then echo "$PROP $(basename $D): PATCH DOES NOT APPLY"; exit 0; fi
 M=$(run_demo)
 T=skipped
 if [ -n "$TESTS" ]; then (cd "$WT" && timeout 1200 /venv/bin/python -m pytest -q -p no:cacheprovider -x $TESTS >/dev/null 2>&1); T=$?; fi
 cd /verif
-OUT=$(VERIF_REPO="$WT" timeout 1500 ./check $PROP 2>&1); K=$?
+if [ -n "$SKIP_CHECK" ]; then OUT=""; K=skipped; else OUT=$(VERIF_REPO="$WT" timeout 1500 ./check $PROP 2>&1); K=$?; fi
 echo "$PROP $(basename $D): demo_clean=$C demo_mutant=$M tests=$T check=$K :: $(echo "$OUT" | grep VIOLATION | head -2 | tr '\n' ' ')"
 for r in $(echo "$OUT" | grep -o 'replay=[^ ]*' | cut -d= -f2 | head -1); do python3 -c "
 import json;d=json.load(open('$r'));print('   signature:', d.get('signature'), d.get('kind'))"; done
